@@ -219,6 +219,7 @@ func c02Triple(rng *vh.Rand) (uint64, uint64, uint64) {
 }
 
 func c02Seq(a vh.Args, o *vh.Oracle, r *vh.Result, c *c02Case) error {
+	r.Running(c)
 	blob := vh.UnHex(c.BlobHex)
 	desync.Digest = desync.SHA512256{}
 	d := c02D(o, c.Avg)
@@ -329,6 +330,7 @@ func c02Islands(rng *vh.Rand, blob []byte, max int) {
 }
 
 func c02Par(a vh.Args, o *vh.Oracle, r *vh.Result, c *c02Case, attempts int) error {
+	r.Running(c)
 	blob := vh.UnHex(c.BlobHex)
 	desync.Digest = desync.SHA512256{}
 	name := filepath.Join(a.Work, "par.blob")
